@@ -53,6 +53,17 @@ TRUSTED_BASE = [
     '(time stamps, RunInfo.script/result/exception), the semantics Registrars/Tie.v gives to the AST (dict/set/tuple '
     'operations, `is` only against None/True/False, locks ignored) and the encodings load/enc_event/enc_value of the '
     'model types); the C11_tie_* theorems of Props/C11.v prove, for all states and events, interpreted source = model',
+    'shared between model and interpreter (so NOT checked by the tie, only by the correspondence run): the dict / set / '
+    'list operations -- Registrars/Tie.v interprets dict get/set/del, list.remove and set add/remove with the very '
+    'functions dget/dset/ddel/remove_first (and list-based sets: set.pop() = first element) that Registrars/Model.v uses',
+    'PINNED as text, no semantics (C11_tie_untranslated_pinned): asserts that do not mention self (`assert context.run_arg`, '
+    '`assert event.<time stamp>.tzinfo is timezone.utc`) are ASSUMED to hold; statements and keyword values that only feed the '
+    'untracked dataclass fields (time stamps, RunInfo.script/result/exception).  Refused by the translator: base classes, '
+    'class-level statements, decorators other than @hookimpl / @staticmethod, default arguments, special methods, unused '
+    'helper methods, module-level statements other than import/class, anything but `ahook = ...; match event:` in monitor.py',
+    'exceptions: a raising hook implementation ends the relay (C11_tie_relay_stops_at_raise, C11_tie_whole_run_stop: stop rule '
+    'as in the code); C11_no_raise proves it cannot happen on a stream accepted by wf_prefix.  NOT modelled: an exception '
+    'raised by the broker (pubsub.publish/end) or by a USER plugin in an event hook, and cancellation of the relay task',
 ]
 ASSUMPTIONS = [
     'a kill is a truncation of the event stream followed by on_end_run (RunSession.run awaits the relay task before _on_end_run)',
